@@ -143,6 +143,14 @@ def run(tier, seed, model_ok):
         for g in [x for x in alw if not (x.mn.startswith('br') and x.mn != 'break') and x.mn not in ('rjmp', 'rcall')][:: max(1, len(alw) // 4)][:3]:
             if g.mn in ('lds', 'sts', 'rjmp', 'rcall', 'brbs', 'brbc') or g.mn.startswith('br') and g.mn != 'break': continue   # position-dependent words
             ctx.append(' nop\n.device %s\n%s' % (dname, g.src)); cmeta.append(('.device after the first instruction', '0000' + E.code_of(base[g.src])))
+    # the reduced core changes the LENGTH of lds/sts: what follows them must still be where its label says
+    for i, (dev, f) in enumerate(meta):
+        if dev and dev[2] and f.mn in ('lds', 'sts') and verdict.get((dev[0], f.src)) == 'ALLOW' and impl.get(str(i), '').startswith('OK'):
+            one = E.code_of(impl[str(i)])
+            if len(one) == 4:      # the one-word form, already judged by the matrix
+                for k in (1, 2, 3):
+                    ctx.append('.device %s\n%s\nc13done: rjmp c13done\n .dw c13done' % (dev[0], '\n'.join([f.src] * k)))
+                    cmeta.append(('after %d one-word lds/sts on the reduced core' % k, one * k + 'ffcf' + '%02x00' % k))
     ctrip = [('c%d' % i, 'B', vlib.hx(t)) for i, t in enumerate(ctx)]
     cimpl = vlib.run_impl(ctrip)
     cmodel = vlib.run_model(ctrip, vlib.cwd_prelude()) if model_ok else {}
